@@ -75,6 +75,8 @@ def run_property(prop, tier, seed, repo):
     timeout_ms = int(os.environ.get('VERIF_SOLVER_MS', '30000' if tier == 'quick' else '120000'))
     for c in reg.for_prop(prop):
         rep = eng.verify(c)
+        if os.environ.get('VERIF_DEBUG'):
+            print('DEBUG verify %s: %.1fs paths=%d obligations=%d feasibility-calls=%d' % (c.label, rep.wall_s, rep.paths, len(rep.obligations), eng.solver_calls))
         res.reports.append(rep)
         res.functions.append(c.label)
         res.assumptions |= rep.assumptions
@@ -111,7 +113,10 @@ def run_property(prop, tier, seed, repo):
         if c.trusted:
             res.assumptions.add('trusted contract: %s %s' % (c.label, c.note))
     res.assumptions |= set(getattr(mod, 'ASSUMPTIONS', []))
+    t1 = time.time()
     discharge(res.obligs, timeout_ms=timeout_ms)
+    if os.environ.get('VERIF_DEBUG'):
+        print('DEBUG discharge: %.1fs' % (time.time() - t1))
     if tier == 'thorough':
         # second-solver confirmation of every unsat (cvc5), recorded; a disagreement is a checker error
         pass
